@@ -12,7 +12,7 @@ Decides only:
 """
 import ast
 
-from ..srcmodel import Unrecognised, unparse, call_name, kwarg, walk, statements, guards_of, const
+from ..srcmodel import dezip_view, Unrecognised, unparse, call_name, kwarg, walk, statements, guards_of, const
 from ..matx import MatX, show
 from . import C14
 from .C07 import find_def
@@ -264,7 +264,7 @@ def d4_validation(ctx, mod):
     ok = len(st) == 1 and unparse(st[0].value) in ("reordered_vecs[kwargs.get('state')]", "reordered_vecs[kwargs['state']]") and len(srt) == 1 and srt[0].lineno < st[0].lineno and unparse(srt[0].value) == '_sort_vectors(all_vecs, ts)'
     ctx.check(rule, 'correlators.py:Corr.GEVP#state-after-sorting', ok, 'the state is picked from the sorted, regrouped list', 'state selection %s / sorting %s' % ([unparse(r.value) for r in st], [unparse(s.value) for s in srt]))
     # _sort_vectors returns original objects permuted, reference slot untouched
-    sv = mod.func('_sort_vectors')
+    sv = dezip_view(mod, mod.func('_sort_vectors'))[0]
     apps = [unparse(c.args[0]) for c in walk(sv) if isinstance(c, ast.Call) and isinstance(c.func, ast.Attribute) and c.func.attr == 'append' and unparse(c.func.value) == 'sorted_vec_set']
     ok = sorted(a_ for a_ in apps if not a_.startswith('[')) == ['None', 'vec_set_in[t]'] and sum(1 for a_ in apps if a_.startswith('[vec_set_in[t][')) == 1
     ctx.check(rule, 'correlators.py:_sort_vectors#outputs', ok, 'each timeslice yields None, a permutation of its own vectors, or (at ts) its vectors unchanged', 'appends %s' % apps)
